@@ -60,6 +60,8 @@ type memRig struct {
 	// beforeMint, when set, runs after the valid mint of the day has been built and signed and before it is
 	// finalized (forbidden variants of it are tried here)
 	beforeMint func(tx *common.VersionedTransaction, elected *memIdent)
+	// certOverride, when set, certifies the next candidate instead of certify (forged certificates)
+	certOverride func(s *common.Snapshot) *crypto.CosiSignature
 	seq       int
 }
 
@@ -127,7 +129,10 @@ func (m *memRig) certify(s *common.Snapshot, drop int, corrupt int) *crypto.Cosi
 	if T > len(nodes) {
 		return nil
 	}
-	k := T + m.rng.IntN(len(nodes)-T+1) - drop
+	k := T + m.rng.IntN(len(nodes)-T+1)
+	if drop > 0 {
+		k = T - drop
+	}
 	if k < 1 {
 		k = 1
 	}
@@ -172,6 +177,48 @@ func (m *memRig) certify(s *common.Snapshot, drop int, corrupt int) *crypto.Cosi
 	copy(agg[:], sum.Bytes())
 	h := s.PayloadHash()
 	return &crypto.CosiSignature{Signature: agg.Sign(h), Mask: maskOf(perm)}
+}
+
+// certifyAt builds a certificate over s that is complete and correct for the
+// consensus key vector of ANOTHER instant (at least the threshold of that
+// instant, all signers genuine). It returns nil when the vector of that instant
+// equals the one at the snapshot's own timestamp.
+func (m *memRig) certifyAt(s *common.Snapshot, other uint64) *crypto.CosiSignature {
+	ref := m.ref()
+	ch := ref.Node.SimChain(s.NodeId)
+	if ch == nil {
+		return nil
+	}
+	now := ch.SimConsensusNodes(s.RoundNumber, s.Timestamp)
+	then := ch.SimConsensusNodes(s.RoundNumber, other)
+	same := len(now) == len(then)
+	for i := 0; same && i < len(now); i++ {
+		same = now[i].IdForNetwork == then[i].IdForNetwork
+	}
+	if same || len(then) == 0 {
+		return nil
+	}
+	T := ref.Node.ConsensusThreshold(other, true)
+	if T > len(then) {
+		return nil
+	}
+	perm := m.rng.Perm(len(then))[:T+m.rng.IntN(len(then)-T+1)]
+	sort.Ints(perm)
+	sum := edwards25519.NewScalar()
+	for _, pos := range perm {
+		id := m.byPub[then[pos].Signer.PublicSpendKey]
+		if id == nil {
+			return nil
+		}
+		sc, err := edwards25519.NewScalar().SetCanonicalBytes(id.signer.PrivateSpendKey[:])
+		if err != nil {
+			return nil
+		}
+		sum.Add(sum, sc)
+	}
+	var agg crypto.Key
+	copy(agg[:], sum.Bytes())
+	return &crypto.CosiSignature{Signature: agg.Sign(s.PayloadHash()), Mask: maskOf(perm)}
 }
 
 // send delivers an injected snapshot to every genesis node.
@@ -555,7 +602,11 @@ func (m *memRig) candidate(owner crypto.Hash, txs []*common.VersionedTransaction
 		s.AddTransaction(h)
 	}
 	s.Hash = s.PayloadHash()
-	s.Signature = m.certify(s, 0, -1)
+	if m.certOverride != nil {
+		s.Signature = m.certOverride(s)
+	} else {
+		s.Signature = m.certify(s, 0, -1)
+	}
 	if s.Signature == nil {
 		return nil
 	}
